@@ -199,6 +199,11 @@ def _cmp_tag(what, got, orig):
         if type(got) is not type(orig) or got != orig:
             raise Violation(f"{what}: tag {orig!r} came back as {got!r}")
         return
+    if isinstance(orig, (bool, int, float)) and isinstance(got, (bool, int, float)):
+        # the constants table is keyed by Python equality: the tags 0.0 / 0 / False (1.0 / 1 / True) share one entry by design
+        if float(got) != R.f32(orig):
+            raise Violation(f"{what}: raw tag {orig!r} came back as {got!r}")
+        return
     _cmp_arg(f"{what} raw tag", got, orig)
 
 
@@ -548,7 +553,7 @@ def _walk_args(v):
             yield from _walk_args(x)
 
 
-UNHASHABLE_KINDS = {"strs", "ints", "floats", "bools", "mixnum", "emptylist", "mixlist", "ndarray"}
+UNHASHABLE_KINDS = {"strs", "ints", "floats", "bools", "mixnum", "emptylist", "mixlist", "ndarray", "mixset"}
 
 
 def _internal_arg_kinds(r):
@@ -859,7 +864,7 @@ def oracle_args(r):
         msg2 = AFL.arg_to_proto(got)
         if not isinstance(val, (sympy.Basic, set, frozenset)) and not (_is_num(val) and val == 0) and msg2.SerializeToString(deterministic=True) != msg.SerializeToString(deterministic=True):
             raise Violation(f"arg {r['v'][0]}: second encoding differs from the first")
-        return {"kind": r["v"][0], "nontrivial": r["v"][0] in ("expr", "mixtuple", "mixlist", "unit", "ndarray", "mixnum")}
+        return {"kind": r["v"][0], "nontrivial": r["v"][0] in ("expr", "mixtuple", "mixlist", "unit", "ndarray", "mixnum", "fset", "mixset")}
     if kind == "farg":
         try:
             val = G.build_farg(r["v"])
